@@ -22,6 +22,7 @@ from .. import genfile
 from ..ref import midi1, smf
 
 ID = 'C07'
+ANCHORS = ['mido.midifiles.midifiles', 'mido.midifiles.meta', 'mido.midifiles.tracks']
 LEVEL = 'exploration'
 RULE = ('generated files: seeded event lists per track (see vmon/genfile.py), distinct by '
         '(seed, shard, index) and non-trivial when the file has at least one track with at '
